@@ -105,6 +105,9 @@ func NormaliseOverlay(p *Program, keep func(*types.Func) bool, opts NormaliseOpt
 				in.stripFailClosedRecover(pk, f, fd)
 				in.rewriteBlock(pk, f, fd, fd.Body)
 				simplifyAddrDeref(fd.Body)
+				if in.changed[f] {
+					simplifyBoolConsts(fd.Body)
+				}
 			}
 		}
 	}
@@ -306,6 +309,22 @@ func (in *inliner) rewriteList(pk *packages.Package, file *ast.File, encl *ast.F
 							out = append(out, st)
 							continue
 						}
+					}
+				}
+			}
+		}
+		// `if x := f(a); cond {…}` with f an eligible helper: the init statement moves in front of the
+		// if, both inside a block of their own (same scope for x, same order of evaluation)
+		if ifs, isIf := st.(*ast.IfStmt); isIf && ifs.Init != nil {
+			if as, isAs := ifs.Init.(*ast.AssignStmt); isAs && len(as.Rhs) == 1 && as.Tok == token.DEFINE {
+				if call, isCall := as.Rhs[0].(*ast.CallExpr); isCall {
+					if fd, elig := in.eligible(calleeOf(pk.TypesInfo, call), pk); elig && fd != nil {
+						init := ifs.Init
+						ifs.Init = nil
+						blk := &ast.BlockStmt{List: []ast.Stmt{init, ifs}}
+						in.rewriteBlock(pk, file, encl, blk)
+						out = append(out, blk)
+						continue
 					}
 				}
 			}
@@ -687,29 +706,67 @@ func (in *inliner) hoistFirstCall(pk *packages.Package, file *ast.File, encl *as
 	}
 	// the statement itself being a plain call is handled by expandStmt
 	info := pk.TypesInfo
-	var first *ast.CallExpr
-	for _, e := range exprs {
-		ast.Inspect(*e, func(n ast.Node) bool {
-			if first != nil {
-				return false
+	// calls in the order they are evaluated (operands before the call, left to right), not looking
+	// into function literals or into the right operand of && and || (evaluated conditionally:
+	// nothing may be hoisted out of it)
+	var calls []*ast.CallExpr
+	enter := map[*ast.CallExpr]int{}
+	var walk func(n ast.Node)
+	walk = func(n ast.Node) {
+		switch x := n.(type) {
+		case nil:
+			return
+		case *ast.FuncLit:
+			return
+		case *ast.BinaryExpr:
+			walk(x.X)
+			if x.Op != token.LAND && x.Op != token.LOR {
+				walk(x.Y)
 			}
-			if _, isLit := n.(*ast.FuncLit); isLit {
-				return false
+			return
+		case *ast.CallExpr:
+			isCall := true
+			if tv, ok := info.Types[x.Fun]; ok && (tv.IsType() || tv.IsBuiltin()) {
+				isCall = false // conversions and builtins are not calls in the evaluation-order sense
 			}
-			c, ok := n.(*ast.CallExpr)
-			if !ok {
+			at := len(calls)
+			walk(x.Fun)
+			for _, a := range x.Args {
+				walk(a)
+			}
+			if isCall {
+				enter[x] = at
+				calls = append(calls, x)
+			}
+			return
+		}
+		ast.Inspect(n, func(c ast.Node) bool {
+			if c == n {
 				return true
 			}
-			// conversions and builtins are not calls in the evaluation-order sense
-			if tv, ok := info.Types[c.Fun]; ok && (tv.IsType() || tv.IsBuiltin()) {
-				return true
+			if c != nil {
+				walk(c)
 			}
-			first = c
 			return false
 		})
-		if first != nil {
-			break
+	}
+	for _, e := range exprs {
+		walk(*e)
+	}
+	var first *ast.CallExpr
+	for _, c := range calls {
+		fn := calleeOf(info, c)
+		fd, ok := in.eligible(fn, pk)
+		if !ok || fn.Type().(*types.Signature).Results().Len() != 1 {
+			continue
 		}
+		if len(fd.Body.List) == 1 {
+			if _, isRet := fd.Body.List[0].(*ast.ReturnStmt); isRet {
+				continue // expression-bodied: substituteExprCalls handles it
+			}
+		}
+		first = c
+		break
 	}
 	if first == nil {
 		return nil, false
@@ -729,35 +786,38 @@ func (in *inliner) hoistFirstCall(pk *packages.Package, file *ast.File, encl *as
 			return nil, false
 		}
 	}
-	fn := calleeOf(info, first)
-	fd, ok := in.eligible(fn, pk)
-	if !ok || fn.Type().(*types.Signature).Results().Len() != 1 {
-		return nil, false
+	// everything evaluated before the helper call stays before it: the outermost calls that are
+	// complete by then move into temporaries of their own, in order
+	var hoist []*ast.CallExpr
+	for i := enter[first] - 1; i >= 0; i = enter[calls[i]] - 1 {
+		if sig, ok := info.TypeOf(calls[i]).(*types.Tuple); ok && sig.Len() != 1 {
+			return nil, false // a multi-valued call feeding another call: leave the statement alone
+		}
+		hoist = append([]*ast.CallExpr{calls[i]}, hoist...)
 	}
-	if len(fd.Body.List) == 1 {
-		if _, isRet := fd.Body.List[0].(*ast.ReturnStmt); isRet {
-			return nil, false // expression-bodied: substituteExprCalls handles it
+	hoist = append(hoist, first)
+	var pre []ast.Stmt
+	for _, c := range hoist {
+		in.counter = int(atomic.AddInt64(&inlineSeq, 1))
+		tmp := "inlh" + strconv.Itoa(in.counter)
+		pre = append(pre, &ast.AssignStmt{Lhs: []ast.Expr{ast.NewIdent(tmp)}, Tok: token.DEFINE, Rhs: []ast.Expr{c}})
+		replaced := false
+		target := c
+		for _, e := range exprs {
+			*e = astutil.Apply(*e, nil, func(cur *astutil.Cursor) bool {
+				if cur.Node() == ast.Node(target) && !replaced {
+					cur.Replace(ast.NewIdent(tmp))
+					replaced = true
+				}
+				return true
+			}).(ast.Expr)
+		}
+		if !replaced {
+			return nil, false
 		}
 	}
-	in.counter = int(atomic.AddInt64(&inlineSeq, 1))
-	tmp := "inlh" + strconv.Itoa(in.counter)
-	asg := &ast.AssignStmt{Lhs: []ast.Expr{ast.NewIdent(tmp)}, Tok: token.DEFINE, Rhs: []ast.Expr{first}}
-	// replace the call by the temporary
-	replaced := false
-	for _, e := range exprs {
-		*e = astutil.Apply(*e, nil, func(c *astutil.Cursor) bool {
-			if c.Node() == ast.Node(first) && !replaced {
-				c.Replace(ast.NewIdent(tmp))
-				replaced = true
-			}
-			return true
-		}).(ast.Expr)
-	}
-	if !replaced {
-		return nil, false
-	}
 	in.changed[file] = true
-	return []ast.Stmt{asg, st}, true
+	return append(pre, st), true
 }
 
 // sameBindings: every identifier of the callee body that refers to a
@@ -1863,4 +1923,261 @@ func enclHasNoNamedResults(fd *ast.FuncDecl) bool {
 		}
 	}
 	return true
+}
+
+// TailDupOverlay is the last step of the normal form, tried only when open obligations remain: a
+// function written in single-exit style
+//
+//	switch … { case A: x, err = f() … default: return …, fmt.Errorf(…) }
+//	if err != nil { return …, err }
+//	…; return …, nil
+//
+// gets the statements that follow the switch (or if/else chain) copied to the end of every clause that
+// can run off its end, so that every branch has its own returns again — the shape the per-branch
+// rules (guards dominating a return, one success return per kind) are written for. The copy is exact:
+// the tail ends in a return, so control never leaves a copy; the original tail stays where it is for
+// the paths that skip every clause. A clause is left alone when a name it declares is used by the tail
+// (the copy would bind to the wrong variable); a tail with labels or goto is not copied.
+func TailDupOverlay(p *Program) (map[string][]byte, []string) {
+	changed := map[*ast.File]bool{}
+	var names []string
+	for _, pk := range p.Pkgs {
+		for _, f := range pk.Syntax {
+			for _, d := range f.Decls {
+				fd, ok := d.(*ast.FuncDecl)
+				if !ok || fd.Body == nil {
+					continue
+				}
+				if n := tailDup(fd.Body); n > 0 {
+					changed[f] = true
+					names = append(names, fmt.Sprintf("tail-duplication(%s)×%d", fd.Name.Name, n))
+				}
+			}
+		}
+	}
+	if len(changed) == 0 {
+		return nil, nil
+	}
+	out := map[string][]byte{}
+	for f := range changed {
+		var buf bytes.Buffer
+		if err := printer.Fprint(&buf, token.NewFileSet(), stripPos(f)); err != nil {
+			return nil, nil
+		}
+		out[p.Fset.Position(f.Pos()).Filename] = buf.Bytes()
+	}
+	sort.Strings(names)
+	return out, names
+}
+
+func terminates(st ast.Stmt) bool {
+	switch s := st.(type) {
+	case *ast.ReturnStmt:
+		return true
+	case *ast.BranchStmt:
+		return true
+	case *ast.ExprStmt:
+		if c, ok := s.X.(*ast.CallExpr); ok {
+			if id, ok := c.Fun.(*ast.Ident); ok && id.Name == "panic" {
+				return true
+			}
+			if se, ok := c.Fun.(*ast.SelectorExpr); ok {
+				if x, ok := se.X.(*ast.Ident); ok && (x.Name == "os" && se.Sel.Name == "Exit" || x.Name == "log" && strings.HasPrefix(se.Sel.Name, "Fatal")) {
+					return true
+				}
+			}
+		}
+	case *ast.BlockStmt:
+		return len(s.List) > 0 && terminates(s.List[len(s.List)-1])
+	case *ast.IfStmt:
+		return s.Else != nil && terminates(s.Body) && terminates(s.Else)
+	}
+	return false
+}
+
+func declaredNames(list []ast.Stmt, into map[string]bool) {
+	for _, st := range list {
+		switch s := st.(type) {
+		case *ast.AssignStmt:
+			if s.Tok == token.DEFINE {
+				for _, l := range s.Lhs {
+					if id, ok := l.(*ast.Ident); ok {
+						into[id.Name] = true
+					}
+				}
+			}
+		case *ast.DeclStmt:
+			if gd, ok := s.Decl.(*ast.GenDecl); ok {
+				for _, sp := range gd.Specs {
+					switch x := sp.(type) {
+					case *ast.ValueSpec:
+						for _, id := range x.Names {
+							into[id.Name] = true
+						}
+					case *ast.TypeSpec:
+						into[x.Name.Name] = true
+					}
+				}
+			}
+		case *ast.LabeledStmt:
+			declaredNames([]ast.Stmt{s.Stmt}, into)
+		}
+	}
+}
+
+func tailDup(body *ast.BlockStmt) int {
+	n := 0
+	for i := 0; i < len(body.List)-1; i++ {
+		tail := body.List[i+1:]
+		if len(tail) > 8 || !terminates(tail[len(tail)-1]) {
+			continue
+		}
+		if _, isRet := tail[len(tail)-1].(*ast.ReturnStmt); !isRet {
+			continue
+		}
+		used := map[string]bool{}
+		bad := false
+		size := 0
+		for _, st := range tail {
+			ast.Inspect(st, func(x ast.Node) bool {
+				size++
+				switch y := x.(type) {
+				case *ast.Ident:
+					used[y.Name] = true
+				case *ast.LabeledStmt:
+					bad = true
+				case *ast.BranchStmt:
+					if y.Tok == token.GOTO || y.Label != nil {
+						bad = true
+					}
+				}
+				return true
+			})
+		}
+		if bad || size > 400 {
+			continue
+		}
+		collides := func(lists ...[]ast.Stmt) bool {
+			decl := map[string]bool{}
+			for _, l := range lists {
+				declaredNames(l, decl)
+			}
+			for nm := range decl {
+				if used[nm] {
+					return true
+				}
+			}
+			return false
+		}
+		appendTail := func(list []ast.Stmt) []ast.Stmt {
+			c := cloneBlock(&ast.BlockStmt{List: tail})
+			return append(list, c.List...)
+		}
+		switch s := body.List[i].(type) {
+		case *ast.SwitchStmt:
+			var init []ast.Stmt
+			if s.Init != nil {
+				init = []ast.Stmt{s.Init}
+			}
+			for _, cl := range s.Body.List {
+				cc := cl.(*ast.CaseClause)
+				if len(cc.Body) > 0 && terminates(cc.Body[len(cc.Body)-1]) {
+					continue
+				}
+				if collides(init, cc.Body) {
+					continue
+				}
+				cc.Body = appendTail(cc.Body)
+				n++
+			}
+		case *ast.IfStmt:
+			var init []ast.Stmt // the init statements of the chain so far: their names are in scope in every later branch
+			for cur := s; cur != nil; {
+				if cur.Init != nil {
+					init = append(init, cur.Init)
+				}
+				if !(len(cur.Body.List) > 0 && terminates(cur.Body.List[len(cur.Body.List)-1])) && !collides(init, cur.Body.List) {
+					cur.Body.List = appendTail(cur.Body.List)
+					n++
+				}
+				switch e := cur.Else.(type) {
+				case *ast.IfStmt:
+					cur = e
+					continue
+				case *ast.BlockStmt:
+					if !(len(e.List) > 0 && terminates(e.List[len(e.List)-1])) && !collides(init, e.List) {
+						e.List = appendTail(e.List)
+						n++
+					}
+				}
+				cur = nil
+			}
+		}
+		if n > 0 {
+			break // one statement per function and round: the tail has changed
+		}
+	}
+	return n
+}
+
+// simplifyBoolConsts folds the boolean constants that parameter substitution leaves behind
+// (`true && c` is `c`, `false && c` is `false`, `c && true` is `c`, likewise for `||`; an `if` on a
+// literal constant is its taken branch). Operands with side effects are never dropped.
+func simplifyBoolConsts(body *ast.BlockStmt) {
+	isLit := func(e ast.Expr, name string) bool {
+		for {
+			p, ok := e.(*ast.ParenExpr)
+			if !ok {
+				break
+			}
+			e = p.X
+		}
+		id, ok := e.(*ast.Ident)
+		return ok && id.Name == name
+	}
+	astutil.Apply(body, nil, func(c *astutil.Cursor) bool {
+		switch x := c.Node().(type) {
+		case *ast.BinaryExpr:
+			switch x.Op {
+			case token.LAND:
+				switch {
+				case isLit(x.X, "true"):
+					c.Replace(x.Y)
+				case isLit(x.X, "false"):
+					c.Replace(ast.NewIdent("false"))
+				case isLit(x.Y, "true"):
+					c.Replace(x.X)
+				}
+			case token.LOR:
+				switch {
+				case isLit(x.X, "false"):
+					c.Replace(x.Y)
+				case isLit(x.X, "true"):
+					c.Replace(ast.NewIdent("true"))
+				case isLit(x.Y, "false"):
+					c.Replace(x.X)
+				}
+			}
+		case *ast.IfStmt:
+			if x.Init != nil {
+				return true
+			}
+			if _, inList := c.Parent().(*ast.BlockStmt); !inList {
+				if _, inCase := c.Parent().(*ast.CaseClause); !inCase {
+					return true
+				}
+			}
+			switch {
+			case isLit(x.Cond, "true"):
+				c.Replace(x.Body)
+			case isLit(x.Cond, "false"):
+				if x.Else != nil {
+					c.Replace(x.Else)
+				} else {
+					c.Replace(&ast.EmptyStmt{})
+				}
+			}
+		}
+		return true
+	})
 }
